@@ -107,15 +107,15 @@ func rfcQuestion(dec string) ([]byte, bool) {
 // ---------------------------------------------------------------------------
 
 type c17Case struct {
-	Fn     string   `json:"fn"`
-	U      uint64   `json:"u"`
-	S      []byte   `json:"s"` // text argument (bytes: may be invalid UTF-8)
-	N      int      `json:"n"` // width / size
+	Fn     string    `json:"fn"`
+	U      uint64    `json:"u"`
+	S      []byte    `json:"s"` // text argument (bytes: may be invalid UTF-8)
+	N      int       `json:"n"` // width / size
 	F      [5]string `json:"f"` // HexInputToOCRA fields
-	Hash   int      `json:"hash"`
-	Digits int      `json:"digits"`
-	QFmt   int      `json:"qfmt"` // 1 N08, 2 N10
-	Key    []byte   `json:"key"`
+	Hash   int       `json:"hash"`
+	Digits int       `json:"digits"`
+	QFmt   int       `json:"qfmt"` // 1 N08, 2 N10
+	Key    []byte    `json:"key"`
 }
 
 const decDigits, hexDigits = "0123456789", "0123456789abcdefABCDEF"
@@ -293,10 +293,15 @@ func checkC17(c c17Case) verdict {
 		want, fits := rfcQuestion(body)
 		if signed || !fits {
 			labels = append(labels, "unclassified")
-			if err == nil && signed && s[0] == '+' && fits && !bytes.Equal(got, want) {
-				return bad(true, labels, "ParseDecimalChallengeRFC6287(%q) = %x, not the number written", s, got)
+			// an accepted signed text must still mean the number written: "+5" is 5, "-0" is 0; a negative number is no
+			// question at all, so whatever bytes come back for "-5" are not "the RFC value for that question"
+			if err == nil && signed && fits {
+				zero := strings.Trim(body, "0") == ""
+				if (s[0] == '-' && !zero) || !bytes.Equal(got, want) {
+					return bad(true, labels, "ParseDecimalChallengeRFC6287(%q) = %x, not the number written", s, got)
+				}
 			}
-			return ok(false, labels...)
+			return ok(err == nil && signed, labels...)
 		}
 		if err != nil || !bytes.Equal(got, want) {
 			return bad(true, labels, "ParseDecimalChallengeRFC6287(%q) = %x, %v; RFC 6287 conversion (hex %s right-padded to 128 bytes) is %x", s, got, err, decToHex(body), want)
